@@ -1,6 +1,6 @@
 import Qv.Driver.C02
 import Qv.Model.Info
-namespace Qv.Drv
+namespace Qv.Drv.C19
 open Lean Qv
 
 def consOfJson (j : Json) : Except String (List (Rel × List Poly)) := do
@@ -43,4 +43,4 @@ def handleCopy (j : Json) : Except String Json := do
 
 def handlersC19 : List (String × (Json → Except String Json)) := [("info", handleInfo), ("copy", handleCopy)]
 
-end Qv.Drv
+end Qv.Drv.C19
